@@ -40,6 +40,10 @@ pub fn gen(seed: u64, tier: Tier) -> ScenarioSpec {
             Some(gen::gen_tree(&mut rng, d, true))
         }
     };
+    if rng.chance(1, if tier == Tier::Thorough { 2000 } else { 10_000 }) {
+        let n = 1_100_000 + rng.usize_below(400_000);
+        rec.metadata = Some(gen::gen_big_tree(&mut rng, n));
+    }
     rec.gecko = None;
     let len = gen::approx_len(&rec) + 3000;
     let mut spec = gen::base_spec(P, "S1", seed, rec);
